@@ -519,7 +519,7 @@ class ExprMixin:
             if f"{cls}.{attr}" in self.models or any(f"{c}.{attr}" in self.models for c in self.src.mro(cls)):
                 return [(BoundMethod(v, cls, attr), st)]
             raise OutOfSubset(f"attribute {cls}.{attr} not in shape", node)
-        if isinstance(v, (ListLoc, SeqV, PyList, MapLoc, PyDict)) or (isinstance(v, Sym) and v.ty in ("qset", "real", "int")):
+        if isinstance(v, (ListLoc, SeqV, PyList, MapLoc, PyDict, ImgSet)) or (isinstance(v, Sym) and v.ty in ("qset", "real", "int")):
             return [(BoundMethod(v, "<builtin>", attr), st)]
         if isinstance(v, tuple) and hasattr(v, "_fields"):
             return [(getattr(v, attr), st)]
@@ -712,7 +712,13 @@ class ExprMixin:
         val, facts = gt.instance(jj)
         if facts:
             st.assume(z3.ForAll([jj], z3.Implies(z3.And(jj >= 0, jj < n), z3.And(*facts))), name="comprehension-facts")
-        arr = z3.Lambda([jj], val)
+        arr = fresh("comp", z3.ArraySort(I, sort_of(v.ty)))
+        pats = [z3.Select(arr, jj)]
+        ej = elem(jj)
+        ej = ej[0] if isinstance(ej, tuple) else ej
+        if isinstance(ej, Sym) and not ej.t.eq(jj) and z3.is_app(ej.t) and ej.t.decl().kind() in (z3.Z3_OP_SELECT, z3.Z3_OP_UNINTERPRETED):
+            pats.append(ej.t)      # also trigger on the element term (e.g. order[j]) so that membership facts reach the definition
+        st.assume(z3.ForAll([jj], z3.Implies(z3.And(jj >= 0, jj < n), z3.Select(arr, jj) == val), patterns=pats), name="comprehension-def")
         seq = SeqV(n, arr, v.ty)
         if kind == "list":
             return [(seq, st)]
